@@ -175,6 +175,7 @@ func exec(i in) vh.Out {
 var vocab9 = []string{"", "latest", "stable", "candidate", "beta", "edge", "foo", "1.0", "hotfix"}
 var vocab6 = []string{"", "latest", "stable", "edge", "foo", "1.0"}
 var vocab5 = []string{"", "latest", "stable", "edge", "foo"}
+var vocabP = []string{"", "latest", "edge", "foo", "foox"} // pinned tracks: one word is a proper prefix of another
 
 // all strings made of 1..maxComps vocabulary words joined by "/"
 func enum(vocab []string, maxComps int) []string {
@@ -232,11 +233,19 @@ func gen(r *vh.Rand, tier string, n int) []in {
 	var ins []in
 	thorough := tier == "thorough"
 	// 1. every unary entry point on every vocabulary string with up to 3 (thorough: 4) slashes
-	comps := 4
+	var strs []string
 	if thorough {
-		comps = 5
+		strs = enum(vocab9, 5)
+	} else {
+		// 1..3 components over the nine words, 4 components (always refused: too many) over six of them
+		strs = enum(vocab9, 3)
+		for _, s := range enum(vocab6, 4) {
+			if strings.Count(s, "/") == 3 {
+				strs = append(strs, s)
+			}
+		}
 	}
-	for k, s := range enum(vocab9, comps) {
+	for k, s := range strs {
 		ins = append(ins, in{Kind: "parse", S: s, Arch: archs[k%len(archs)]})
 	}
 	// 2. Clean on arbitrary Channel values (fields need not come from the parser)
@@ -249,11 +258,11 @@ func gen(r *vh.Rand, tier string, n int) []in {
 		}
 	}
 	// 3. Resolve / ResolvePinned on all pairs
-	curs, news, tracks := enum(vocab5, 3), enum(vocab6, 2), enum(vocab5, 2)
-	pnews := enum(vocab5, 3)
+	curs, news, tracks := enum(vocab5, 3), enum(vocab6, 2), enum(vocabP, 2)
+	pnews := enum(vocabP, 3)
 	if thorough {
 		curs, news = enum(vocab9, 3), enum(vocab9, 2)
-		tracks, pnews = enum(vocab9, 2), enum(vocab9, 3)
+		tracks, pnews = enum(append([]string{"foox"}, vocab9...), 2), enum(append([]string{"foox"}, vocab9...), 3)
 	}
 	for _, c := range curs {
 		for _, nw := range news {
